@@ -18,6 +18,8 @@ structure Sess where
   cursor : Option StrMap.Cursor := none
   usedEmpty : Bool := false             -- the empty key was used (X5): stored keys may differ from paths
   cb     : String := ""                 -- exact callback order of the current op (phys section)
+  sparse : Bool := false                -- obs=sparse session: content only on `observe`
+  full   : Bool := false                -- the current op is `observe`
 
 def hexDigit (n : Nat) : Char := if n < 10 then Char.ofNat (48 + n) else Char.ofNat (87 + n)
 def hex2 (n : Nat) : String := String.ofList [hexDigit (n / 16 % 16), hexDigit (n % 16)]
@@ -57,6 +59,7 @@ def fmtPath : Option Path → String
   | some p => "/" ++ String.join (p.map fmtDir)
 
 def obsM (s : Sess) : String :=
+  if s.sparse && !s.full then "" else
   match s.model with
   | none => "abs=[] enum=[] size=0"
   | some t =>
@@ -64,6 +67,7 @@ def obsM (s : Sess) : String :=
     let abs := s.univ.filterMap fun k => (t.root.lookup cmp k).map fun e => (k, e.2)
     s!"abs={fmtPairs abs} enum={fmtPairs (sortPairs (iterAll t {}).1)} size={t.size}"
 def obsS (s : Sess) : String :=
+  if s.sparse && !s.full then "" else
   match s.spec with
   | none => "abs=[] enum=[] size=0"
   | some sp =>
@@ -77,7 +81,8 @@ def phys (s : Sess) : String :=
       | none => ""
       | some it => s!" it=cur:{fmtPath it.cur},next:{fmtPath it.next},adv:{if it.adv then 1 else 0}" ++
           (if it.adv then s!",ns:{it.nextStat.code}" else "")
-    s!"size={t.size} tree={fmtNode t.root} ord={fmtPairs (iterAll t {}).1}{s.cb}{itS}"
+    let ord := if s.sparse && !s.full then "" else s!" ord={fmtPairs (iterAll t {}).1}"
+    s!"size={t.size} tree={fmtNode t.root}{ord}{s.cb}{itS}"
 def inv (s : Sess) : Bool :=
   match s.model with
   | none => true
@@ -89,7 +94,7 @@ def lines (hdS hdM : String) (s : Sess) : String × String :=
 
 def fin (s : Sess) (hdS hdM : String) : Sess × String × String :=
   let l := lines hdS hdM s
-  ({ s with cb := "" }, l.1, l.2)
+  ({ s with cb := "", full := false }, l.1, l.2)
 
 /-- returns the new session, the spec line and the model line -/
 def step (s0 : Sess) (c : Cmd) : Sess × String × String :=
@@ -105,6 +110,7 @@ def step (s0 : Sess) (c : Cmd) : Sess × String × String :=
     let (st, t, m) := Table.new (if c.op == "new" then .conf else .libc) m
     let (sst, sp) := if c.fired > 0 then (Stat.errAlloc, none) else (Stat.ok, some StrMap.empty)
     let s' : Sess := { s with model := t, spec := sp, mem := m, it := none, cursor := none,
+                              sparse := c.str "obs" == some "sparse",
                               cmpK := if c.op == "new" then (c.str "cmp").getD "s" else "s" }
     fin s' (fmtStat sst) (fmtStat st)
   | _ =>
@@ -136,6 +142,7 @@ def step (s0 : Sess) (c : Cmd) : Sess × String × String :=
     | "remove_all", _ =>
       let (t', m) := t.removeAll m
       fin { s with model := some t', spec := some sp.removeAll, mem := m, it := none, cursor := none } "st=-" "st=-"
+    | "observe", _ => fin { s with full := true } "st=-" "st=-"
     | "size", _ =>
       fin s s!"st=- out={sp.size}" s!"st=- out={t.size}"
     | "foreach_key", _ =>
